@@ -50,10 +50,18 @@ def manifest(outputs=("cpp", "python", "json", "matlab")):
     return s
 
 
-def write_tree(root, variant=0, outputs=("cpp", "python", "json", "matlab"), lib=LIB):
-    common.write_tree(root, {"base/_package.yml": "namespace: Base\n", "base/base.yml": BASE,
-                             "lib/_package.yml": "namespace: Lib\nimports:\n  - ../base\n", "lib/lib.yml": lib,
-                             "main/_package.yml": manifest(outputs), "main/model.yml": model(variant)})
+LIB_ALONE = "LibRec: !record\n  fields:\n    x: int\n    y: string*\n"
+
+
+def write_tree(root, variant=0, outputs=("cpp", "python", "json", "matlab"), lib=LIB, single_import=False):
+    files = {"base/_package.yml": "namespace: Base\n", "base/base.yml": BASE,
+             "lib/_package.yml": "namespace: Lib\nimports:\n  - ../base\n", "lib/lib.yml": lib,
+             "main/_package.yml": manifest(outputs), "main/model.yml": model(variant)}
+    if single_import:
+        # the package under watch references exactly one other package
+        files = {"lib/_package.yml": "namespace: Lib\n", "lib/lib.yml": LIB_ALONE if lib == LIB else lib,
+                 "main/_package.yml": manifest(outputs), "main/model.yml": model(variant)}
+    common.write_tree(root, files)
 
 
 def save(path, text, how):
@@ -161,6 +169,9 @@ def schedules(quick):
         ("file-added-then-moved-out", "", [(0, "add-file", 1, "rename"), (400, "model", 2, "inplace"), (400, "move-file-out", 3, "inplace")]),
         ("file-added-edited-deleted-fast", "", [(0, "add-file", 1, "inplace"), (30, "add-file", 2, "inplace"), (30, "delete-file", 3, "inplace")]),
         ("file-added-kept", "", [(0, "model", 1, "inplace"), (300, "add-file", 2, "inplace")]),
+        ("single-import-lib-edit-last", "", [(0, "model", 1, "inplace"), (400, "lib", 2, "inplace")]),
+        ("single-import-lib-edit-rename", "", [(0, "model", 1, "rename"), (400, "lib", 2, "rename"), (400, "lib", 3, "inplace")]),
+        ("two-imports-lib-edit-last", "", [(0, "model", 1, "inplace"), (400, "lib", 2, "inplace")]),
     ]
     out += forced if quick else forced * 1 + [("forced-validated2-gap%d" % g, "regen.validated#2=1200", [(0, "model", 1, "inplace"), (g, "model", 2, "inplace")]) for g in (20, 50, 100, 300, 600, 1100, 1300)]
     return out
@@ -182,9 +193,10 @@ def run(ctx):
 
     def one(item):
         name, delays, steps = item
+        single = name.startswith("single-import")
         root = os.path.join(ctx.workdir, "cases", name)
         shutil.rmtree(root, ignore_errors=True)
-        write_tree(root, 0)
+        write_tree(root, 0, single_import=single)
         w = Watcher(root, os.path.join(root, "home"), yardl, delays)
         os.makedirs(os.path.join(root, "home"), exist_ok=True)
         verdict = {"name": name, "saves": len(steps)}
@@ -209,7 +221,7 @@ def run(ctx):
                     invalid_seen = True
                     final_invalid = True
                 elif kind == "lib":
-                    lib_text = LIB + "LibExtra%d: !record\n  fields:\n    q: int\n" % v
+                    lib_text = (LIB_ALONE if single else LIB) + "LibExtra%d: !record\n  fields:\n    q: int\n" % v
                     save(os.path.join(root, "lib/lib.yml"), lib_text, how)
                 elif kind == "lib-bad-import":
                     save(os.path.join(root, "lib/_package.yml"), "namespace: Lib\nimports:\n  - htps://example.invalid/base\n", how)
@@ -249,7 +261,7 @@ def run(ctx):
             # reference: one-shot generate of the final contents in a fresh tree
             ref = os.path.join(root, "ref")
             shutil.rmtree(ref, ignore_errors=True)
-            write_tree(ref, final_variant, cur_outputs, lib_text)
+            write_tree(ref, final_variant, cur_outputs, lib_text, single_import=single)
             if second is not None:
                 common.write_tree(ref, {"main/second.yml": second})
             p = cli.run_cli("generate", os.path.join(ref, "main"), home)
